@@ -63,6 +63,8 @@ def main(argv=None):
     ap.add_argument("prop")
     ap.add_argument("--tier", default=os.environ.get("VERIF_TIER", "quick"), choices=["quick", "thorough"])
     ap.add_argument("--jobs", type=int, default=int(os.environ.get("VERIF_JOBS", "16")))
+    ap.add_argument("--write-baseline", action="store_true",
+                    help="record which obligations discharge (run on the pinned tree only; the file is committed)")
     a = ap.parse_args(argv)
     seed = int(os.environ.get("VERIF_SEED", "0") or 0)
     t0 = time.time()
@@ -87,7 +89,7 @@ def main(argv=None):
                 results.append(r)
     # finite / DFA / static obligations registered for this property
     extra = finite.run(a.prop, a.tier, seed) if hasattr(finite, "run") else []
-    return report.finish(a.prop, a.tier, seed, contracts, results, extra, t0)
+    return report.finish(a.prop, a.tier, seed, contracts, results, extra, t0, write_baseline=a.write_baseline)
 
 
 if __name__ == "__main__":
